@@ -1,6 +1,6 @@
 """C09 — GPO/PCT/VPCT run the published schedule of base learners and validation."""
 from .. import configs
-from ..algorun import replay_algo, run_algo_task
+from ..algorun import bystander_tasks, replay_algo, run_algo_task
 from ..ledger import recording_classes
 from ..refs.wrappers import GpoOracle, gpo_N, stub_classes
 
@@ -41,6 +41,8 @@ def tasks(tier, seed):
             cfg = configs.cfg(algo, part, K, configs.BOXES[box], **params)
             ts.append({"kind": "algo", "label": "full/%s/%s" % (label, part), "cfg": cfg, "mode": "full", "T": 7 if tier == "quick" else 9,
                        "R": list(configs.R3), "cost": 5})
+            ts += bystander_tasks("%s/%s" % (label, part), configs.shifted(cfg), [1.0, -1.0], T_long=103, T_short=16, bases=("twopeak", "negpeak"),
+                                  k=1 if tier == "quick" else 2)
             for base in ("twopeak", "negpeak"):
                 ts.append({"kind": "algo", "label": "dev/%s/%s/%s" % (label, part, base), "cfg": cfg, "mode": "dev", "T": 103, "R": [1.0, -1.0],
                            "base": base, "k": 1 if tier == "quick" else 2, "cost": 20, "max_exec": 1000 if tier == "quick" else 30000})
